@@ -3,6 +3,7 @@ import FunsorVerif.Core.Sexp
 import FunsorVerif.Core.XR
 import FunsorVerif.Core.Semiring
 import FunsorVerif.Model.C11
+import FunsorVerif.Model.C11.Tape
 namespace FV.Drv.C11
 open FV FV.C11
 
@@ -134,13 +135,16 @@ def run (szl : List Nat) (ls : List LeafD) (e : Expr) : String :=
     let pts := points l.axes env0
     let fs := pts.map (marginal o sz L n F l.id g)
     let dv := pts.map (fun p => sumM o sz n F (deriv o sz L l.id p e) env0)
-    Sexp.list [Sexp.atom "leaf", Sexp.ofNat l.id, Sexp.ofNats gv, xs gtab, xs fs, xs dv]
+    -- the same adjoint by the tape sweep over the hash-consed DAG (Model/C11/Tape.lean)
+    let tg := Tape.tapeAdjoint o sz L n e l.id
+    let ts := pts.map (marginal o sz L n F l.id tg)
+    Sexp.list [Sexp.atom "leaf", Sexp.ofNat l.id, Sexp.ofNats gv, xs gtab, xs fs, xs dv, xs ts]
   "ok " ++ toString (Sexp.list [Sexp.ofNats Fv, xs fwd, Sexp.list leaves])
 
 /--
   C11 adjoint (sz…) ((id ((axis size)…) (data…))…) expr
      → ok ((F…) (forward table over F) ((leaf id (adjoint inputs…) (adjoint table) (marginal onto the
-           leaf's axes) (spec: derivative table))…))
+           leaf's axes) (spec: derivative table) (marginal of the tape sweep over the hash-consed DAG))…))
 -/
 def handle (args : List Sexp) : String :=
   match args with
